@@ -24,7 +24,7 @@ REQUIRED = {"interactions_resolved": 5000, "dihedrals_resolved": 2000, "wildcard
             "multi_term_expansions": 300, "instances_checked": 2000, "expected_failures": 50, "macros_substituted": 200,
             "nonbond_pairs_checked": 3000, "explicit_overrides": 300, "c6c12_conversions": 500, "masks_seen": 14,
             "opls_cases": 30, "multi_line_molecules": 100, "other_moleculetype_instances": 200,
-            "macros_with_function_type": 100}
+            "macros_with_function_type": 100, "macros_in_pairs": 100, "macros_defined_twice": 30}
 TYPES = ["ta", "tb", "tc", "td", "te"]
 
 
@@ -157,8 +157,16 @@ def gen(rng):
     # macros
     macros = {}
     for k in range(rng.randint(0, 2)):
+        if rng.random() < 0.3:
+            # the same macro defined before with another value (a force-field file and the user's own file): the
+            # definition read last is the one in force
+            lines.append("#define gb_%d %.4f %d" % (k, rng.uniform(0.3, 0.4), rng.randint(100, 900)))
+            macros.setdefault("_redefined", []).append("gb_%d" % k)
         macros["gb_%d" % k] = ["%.4f" % rng.uniform(0.1, 0.2), str(rng.randint(1000, 9000))]
         lines.append("#define gb_%d %s" % (k, " ".join(macros["gb_%d" % k])))
+    if rng.random() < 0.4:
+        macros["pm_0"] = ["%.4f" % rng.uniform(0.2, 0.5), "%.3f" % rng.uniform(0.1, 2.0)]
+        lines.append("#define pm_0 %s" % " ".join(macros["pm_0"]))
     if rng.random() < 0.5:
         # a macro that stands for the whole tail of the line, function type included (plain text substitution)
         macros["gbf_0"] = ["2", "%.4f" % rng.uniform(0.1, 0.2), str(rng.randint(1000, 9000))]
@@ -172,8 +180,8 @@ def gen(rng):
     for i in range(natoms - 1):
         idx = [i, i + 1] if rng.random() < 0.5 else [i + 1, i]
         c = rng.random()
-        if c < 0.15 and macros:
-            m = rng.choice(sorted(macros))
+        if c < 0.15 and any(k_.startswith("gb") for k_ in macros):
+            m = rng.choice(sorted(k_ for k_ in macros if k_.startswith("gb")))
             inter["bonds"].append((idx, ("macro", m)))
             if m.startswith("gbf_"):
                 lines.append("%d %d %s" % (idx[0] + 1, idx[1] + 1, m))
@@ -192,6 +200,15 @@ def gen(rng):
         idx = [i, i + 2] if rng.random() < 0.5 else [i + 2, i]
         inter["constraints"].append((idx, ("typed", None)))
         lines.append("%d %d 1" % (idx[0] + 1, idx[1] + 1))
+    if "pm_0" in macros and natoms >= 4:
+        # explicit 1-4 pair parameters given through a macro
+        lines.append("[ pairs ]")
+        inter["pairs"] = []
+        for i in range(natoms - 3):
+            if rng.random() < 0.6:
+                idx = [i, i + 3]
+                inter["pairs"].append((idx, ("macro1", "pm_0")))
+                lines.append("%d %d 1 pm_0" % (idx[0] + 1, idx[1] + 1))
     lines.append("[ angles ]")
     for i in range(natoms - 2):
         if rng.random() < 0.7:
@@ -316,11 +333,21 @@ def run_case(cid, rng, workdir):
                     if g != [val]:
                         violation(res, "explicit-parameters-changed", "[%s] %s instance %d: %s, written %s" % (sec, idx, mi, g, val), w)
                     continue
+                if kind == "macro1":
+                    want = ["1"] + list(case["macros"][val])
+                    bump(res, "macros_substituted")
+                    bump(res, "macros_in_pairs")
+                    if g != [want]:
+                        violation(res, "macro-not-substituted:pairs", "[%s] %s instance %d: parameters %s, macro %s = %s" %
+                                  (sec, idx, mi, g, val, case["macros"][val]), w)
+                    continue
                 if kind == "macro":
                     want = (["2"] + case["macros"][val]) if not val.startswith("gbf_") else list(case["macros"][val])
                     bump(res, "macros_substituted")
                     if val.startswith("gbf_"):
                         bump(res, "macros_with_function_type")
+                    if val in case["macros"].get("_redefined", []):
+                        bump(res, "macros_defined_twice")
                     if g != [want]:
                         violation(res, "macro-not-substituted", "[%s] %s instance %d: parameters %s, macro %s = %s" %
                                   (sec, idx, mi, g, val, case["macros"][val]), w)
